@@ -40,7 +40,8 @@ RULE = (
     "every stream read, every get_data, every package import, every "
     "readline/read(n) call of every resource including the call that returns "
     "EOF, every conversion / section-datatype / key-type callback call "
-    "(ValueError and RuntimeError), and typed text faults at every position; "
+    "(ValueError, RuntimeError and, for a third of them, an interruption "
+    "that is a BaseException), and typed text faults at every position; "
     "for a third of the points a second faulty load (another point of the "
     "same scenario) follows on the same loader before the fault-free rerun. "
     "A case is non-trivial when the fault fired inside the in-flight load; "
@@ -71,7 +72,7 @@ WRAPPER = "%s.zz-wrapper"       # URL of a resource that includes the top
 OPEN_KINDS = ["open-enoent", "open-http-404", "open-timeout", "open-refused",
               "open-eacces", "open-http-500", "open-oserror"]
 READ_KINDS = ["read-eio", "read-truncated", "read-reset", "read-timeout",
-              "read-memoryerror", "read-valueerror"]
+              "read-memoryerror", "read-valueerror", "read-abort"]
 
 
 def generate(rng, tier, index):
@@ -250,10 +251,15 @@ def failure_points(plan, recon):
         for i in range(calls):
             pts.append({"faults": [{"seam": "line", "res": j, "at": i,
                                     "kind": "line-eio"}]})
+            if (i + j + rot) % 4 == 0:
+                # an interruption that is not an Exception
+                pts.append({"faults": [{"seam": "line", "res": j, "at": i,
+                                        "kind": "line-abort"}]})
     for seam, n in (("conv", recon["n_conv"]), ("sect", recon["n_sect"]),
                     ("keytype", recon["n_keytype"])):
         for k in range(n):
-            for kind in ("valueerror", "runtimeerror"):
+            for kind in ("valueerror", "runtimeerror") + (
+                    ("abort",) if (k + rot) % 3 == 0 else ()):
                 pts.append({"faults": [{"seam": seam, "at": k,
                                         "kind": "%s-%s" % (seam, kind)}]})
     if plan["kind"] == "config":
